@@ -319,9 +319,7 @@ def oracle(case, info, run, point, action, cross):
     if case.get("fm", 0) == 2 and info["tail"] and info["tail"] not in data:
         trunc = sig_xdev and "copy_create_dst" in run["trace"] and data != new
         if not trunc:  # truncation already reported above
-            # signature of the recorded finding: no result was printed and the (committed) new content is what is on disk
-            key = "fm-tail-lost" if (info["n"] == 0 and new is not None and data == new) else None
-            bad.append((key, "front matter tail lost (exit %d)" % rc))
+            bad.append((None, "front matter tail lost (exit %d)" % rc))
     if rc in (1, 2) and run["ntemps"] > 0 and "create_temp" in run["trace"] and not case.get("fm", 0):
         bad.append(("temp-leak", "temp file left in TMPDIR after exit %d" % rc))
     return bad
